@@ -121,7 +121,7 @@ def gen_spec(seed, profile="core", variant=None, templates=None):
     rng = random.Random(seed)
     variant = variant or rng.choice(("plain", "plain", "congested", "starved", "finite", "finite"))
     congested = variant == "congested"
-    template = rng.choice(templates or ("line", "line", "line", "diamond", "pack", "packunpack", "multisink", "fanin"))
+    template = rng.choice(templates or ("line", "line", "line", "diamond", "pack", "packunpack", "multisink", "fanin", "splitline"))
     item_len = rng.choice((1, 1, 0.5))
     nodes, conns = [], []
 
@@ -177,6 +177,19 @@ def gen_spec(seed, profile="core", variant=None, templates=None):
             conn(f"M{j}", f"M{j+1}", rng.choice((1, 1, 2, 3)))
         if nm:
             conn(f"M{nm-1}", "K0", rng.choice((1, 1, 2)))
+    elif template == "splitline":
+        # empty pallets straight from a source into a splitter (it just forwards the empty pallet)
+        src("SP", "pallet")
+        splitter("P0")
+        conn("SP", "P0", rng.choice((1, 1, 2)))
+        if rng.random() < 0.6:
+            machine("M0")
+            conn("P0", "M0", rng.choice((1, 2)))
+            sink("K0")
+            conn("M0", "K0")
+        else:
+            sink("K0")
+            conn("P0", "K0", rng.choice((1, 2)))
     elif template == "fanin":
         for i in range(3):
             src(f"S{i}")
